@@ -17,7 +17,8 @@ INFO = {
                    'aggregate in some entry; (period) steady -> suppression -> further vectors -> timer on the virtual '
                    'clock; (publish) new_data raises the own number by one and promptly emits the full vector.',
     'bounds': {'quick': {'node_ids': 'self, A, B plus one unknown id', 'sequence_numbers': '[0,2^64) each',
-                         'received_entries': 'every subset of the ids, plus malformed entries (empty id, missing number)',
+                         'received_entries': '10 subsets / orders of the ids (own entry first, last, in the middle), plus malformed '
+                                             'entries (empty id, missing number)',
                          'period': 'up to 2 vectors heard during suppression'}},
     'outside': ['more than 4 node ids', 'real timer jitter (the random deviation is fixed to its extremes by choice)'],
     'assumptions': ['time.time() = virtual loop time; secrets.randbits chosen among {0, 65535}',
